@@ -117,8 +117,8 @@ def draw_cfg(rng):
     return d, None, 'random'
 
 
-def mk(src, lang, rng, origin):
-    cfgd, prof, kind = draw_cfg(rng)
+def mk(src, lang, rng, origin, cfg_rng=None):
+    cfgd, prof, kind = draw_cfg(cfg_rng or rng)
     origin = dict(origin, cfgkind=kind)
     return family.Case(src[:65536], lang, cfgd, origin, {'quiet': rng.random() < 0.6, 'profile': prof})
 
@@ -137,12 +137,13 @@ def to_case(v):
     b = b[:max(1, int(len(b) * cut))]
     if rng.random() < 0.3:
         lang = rng.choice(LANGS)
-    return mk(b, lang, rng, {'kind': 'generated-cut', 'seed': seed})
+    return mk(b, lang, rng, {'kind': 'generated-cut', 'seed': seed}, random.Random(family.cfg_seed(seed)))
 
 
 def main(ctx):
     quick = ctx.tier == 'quick'
     _EX.update(family.exclusions(ctx))
+    family.set_tier(ctx)
     ctx.rule = ('case = (input bytes, language, config, -q or not) run on the ASan+UBSan binary; non-trivial = the input is refused, or accepted '
                 'with >= 10 tokens; distinct by sha256(input, language, config)')
     ctx.assumptions = ['documented exit statuses = 0, 1 and the EX_* range 64..78 of base_types.h', 'a run is a hang when it uses %d s of CPU (typical runs '
@@ -164,7 +165,7 @@ def main(ctx):
             trunc.append((rel, lang, i))
         trunc.append((rel, lang, -1))
     ctx.extra['truncation_universe'] = len(trunc)
-    rng = random.Random(core.subseed(ctx.seed, 'trunc'))
+    rng = random.Random(core.subseed(ctx.useed, 'trunc'))
     if ntr is not None:
         trunc = rng.sample(trunc, ntr)
     else:
@@ -172,14 +173,14 @@ def main(ctx):
     for j, (rel, lang, i) in enumerate(trunc):
         src = corpus.read(rel)
         cut = src.rstrip(b'\r\n') if i == -1 else src[:i]
-        r = random.Random(core.subseed(ctx.seed, 't', rel, i))
+        r = random.Random(core.subseed(ctx.useed, 't', rel, i))
         if r.random() < 0.5:
             cut = cut.rstrip(b'\r\n')
         cases.append(mk(cut, lang, r, {'kind': 'truncation', 'file': rel, 'at': i}))
     # (b) mutations
     small = [f for f in files if sizes[f[0]] < 12000 and f[0] not in HANG_FILES]
     for i in range(2500 if quick else 120000):
-        r = random.Random(core.subseed(ctx.seed, 'mut', i))
+        r = random.Random(core.subseed(ctx.useed, 'mut', i))
         rel, lang = r.choice(small)
         src, names = mutate.mutate(corpus.read(rel), r, r.randint(1, 3))
         if r.random() < 0.15:
@@ -187,7 +188,7 @@ def main(ctx):
         cases.append(mk(src, lang, r, {'kind': 'mutant', 'file': rel, 'mut': names, 'i': i}))
     # (c) random bytes
     for i in range(300 if quick else 8000):
-        r = random.Random(core.subseed(ctx.seed, 'rnd', i))
+        r = random.Random(core.subseed(ctx.useed, 'rnd', i))
         n = r.choice([1, 2, 5, 20, 100, 600])
         alpha = r.choice([bytes(range(32, 127)) + b'\n\t', bytes(range(256)), b'{}()[]<>;,:\'"\\/#*@$ \n\tabc01', b'\x00\xff\xfe\xef\xbb\xbf\xc0\x80ab \n'])
         src = bytes(r.choice(alpha) for _ in range(n))
